@@ -17,7 +17,8 @@ PROP = dict(
          "limit lowered by >= 2 in mid-composition followed by editing keys; an editing sweep over every cursor position; and "
          "candidate lists open under a mode / option change - CapsLock, Shift-Space, set_editor_options with the language mode "
          "(= chewing_set_ChiEngMode) or the character form changed - followed by every later site that restores a saved "
-         "cursor: symbol-table insert, Esc from another list, a choice, cancel_selecting), recomputed by the model from the implementation's own full "
+         "cursor: symbol-table insert, Esc from another list, a choice, cancel_selecting; FX3: fuzzy engine + N x the same initial key beyond "
+         "the limit; FX4: simple engine + (syllable, cancel_selecting) cycles beyond the limit), recomputed by the model from the implementation's own full "
          "pre-state and compared on the complete post-state; distinct = distinct record text",
     trusted_base=["no kernel enumeration: all theorems are structural (induction over operation lists / histories, case "
                   "analysis over the arms of the state machine, simp/omega over lists)",
@@ -50,23 +51,32 @@ MANIFEST = dict(
          "(TilingAt), which Proofs/EditorLink.lean derives from C01's invariant (tilingAt_of_shInv, dispatch_shInv: the state a "
          "key's state-machine part leaves satisfies it in all four states), giving Link.bounded_after_key_linked / "
          "tryAutoCommit_total_linked and, in Props/C18.lean, bounded_after_key_linked and buffer_bounded_along (len <= threshold "
-         "in Entering is an invariant of every key history) with no tiling premise. GLOBAL bound (round 2, Chewing/Props/C05Bound.lean, "
-         "audited with this property): the unrestricted statement 'the buffer never holds more than the largest configured limit plus "
-         "one' is REFUTED on the model and confirmed on the real C API two ways - fuzzy_unbounded_refuted (keys alone under prefix lookup "
-         "= fuzzy engine: EnteringSyllable's Fuzzy arm inserts the pending partial syllable and stays in EnteringSyllable, where "
-         "process_keyevent never runs try_auto_commit: 200 x 'h' gives chewing_buffer_Len 199 at limit 39) and cancel_unbounded_refuted "
-         "(cancel_selecting / chewing_cand_close, also revalidate_selecting closing an emptied list, returns to Entering without "
-         "try_auto_commit; with the simple engine each cycle 'type a syllable, close the list' adds a symbol: 100 cycles give 100) - "
-         "and buffer_bounded_everywhere proves the rest: for every environment satisfying C01's EnvOK whose layout never answers Fuzzy "
-         "to key_press, from a fresh editor with exact lookup, thresholds <= B (initially and in every set_editor_options), every "
-         "history of valid operations - ALL keys in all four states, select, start_selecting, commit, clear, jump_*, engine change; "
-         "cancel_selecting and the option / layout / learn / unlearn calls when the open list is not the simple engine's over-full "
-         "one-word list (SafeAlong) - returns, and in the state reached, of whichever kind, len <= B, <= B + 1 while a candidate list "
-         "is open (attained: bound_plus_one_attained); B is the largest threshold of the history because lowering the limit leaves the "
-         "longer buffer until the next absorbed key; inside a step, where the conversion runs, at most B + max 2 K symbols, K = longest "
+         "in Entering is an invariant of every key history) with no tiling premise. GLOBAL bound (round 2, Chewing/Props/C05Bound.lean + Proofs/EditorLinkBound{,2,3}.lean, "
+         "audited with this property): the statement 'from a fresh editor, whatever the valid operations, the buffer never holds more "
+         "than the largest configured limit plus one symbol' was REFUTED on the model and on the real C API two ways (FX3: keys alone "
+         "under prefix lookup = fuzzy engine - EnteringSyllable's Fuzzy arm inserts the pending partial syllable and stays in "
+         "EnteringSyllable, where process_keyevent never ran try_auto_commit: 200 x 'h' gave chewing_buffer_Len 199 at limit 39; FX4: "
+         "cancel_selecting / chewing_cand_close returns to Entering without try_auto_commit and the next syllable key went Entering -> "
+         "EnteringSyllable without it: with the simple engine 100 cycles 'type a syllable, close the list' gave 100 symbols) and REPAIRED "
+         "by fix b92f99b (try_auto_commit after every key / select answered Absorb that ends in Entering OR EnteringSyllable). On the "
+         "repaired code it is PROVED: bounded_everywhere_full / buffer_bounded_all_operations - for every environment satisfying C01's "
+         "EnvOK (every layout model, both lookup strategies, all three engines), from a fresh editor, thresholds <= B (initially and in "
+         "every set_editor_options), EVERY history of valid operations (all keys in all four states and every API call, no side "
+         "condition) returns, and in the state reached len <= B + 1, len <= B while a syllable is being entered; "
+         "buffer_bounded_everywhere / buffer_bounded_keys (no 'never answers Fuzzy' / exact-lookup hypothesis any more): len <= B in "
+         "Entering, EnteringSyllable and Highlighting, <= B + 1 while a candidate list is open (attained: bound_plus_one_attained), for "
+         "every key history without any side condition and for histories whose list-closing API calls are not made over the simple "
+         "engine's over-full one-word list (SafeAlong); the old witness histories stay within the bound (fuzzy_history_repaired, "
+         "fuzzy_keys_bounded, cancel_cycle_repaired, cancel_then_key_within). What remains false is recorded: "
+         "bounded_editing_full_refuted / cancel_leaves_one_over_refuted - right after the API call cancel_selecting (no key handled) "
+         "Entering holds limit + 1 symbols until the next key. B is the largest threshold of the history because lowering the limit "
+         "leaves the longer buffer until the next absorbed key; inside a step, where the conversion runs, at most B + max 2 K symbols, K = longest "
          "easy-symbol expansion of the editor's table (conversions_are_short). Tie: per-step correspondence "
          "of both models with the real code from the implementation's own pre-state, plus a shadow list/cursor oracle "
-         "written from the property text evaluated on every step of the real editor, including a shadow FRAME per open "
+         "written from the property text evaluated on every step of the real editor (the bound after EVERY key answered Absorb or "
+         "Commit in whatever state it ends: <= the limit in force in Entering / EnteringSyllable, <= the largest limit since the last "
+         "auto-commit opportunity + 1 under a list or highlight; also after select; stats c05_bound_*, c05_fuzzy_insertions_*, "
+         "c05_script_sessions_*; with fix b92f99b reverted: VIOLATION with the key history, 1338 verdicts in the quick tier), including a shadow FRAME per open "
          "candidate list kept across steps (a list left without choosing, however it is closed, gives back the buffer and the "
          "cursor of the moment it was opened; a symbol chosen from the backquote symbol table goes in exactly at that cursor "
          "and the cursor advances by one; a chosen phrase moves no symbol and restores the cursor, one further with "
@@ -77,10 +87,10 @@ MANIFEST = dict(
     note="Trusted: Lean kernel (axioms propext, Classical.choice, Quot.sound only), the harness and the compiled model "
          "driver, the read-only snapshot hook and the guarded forwarding probe for the crate-private CompositionEditor. "
          "bounded_after_key is conditional on the conversion answer tiling the buffer (C03); the linked form "
-         "(C18.bounded_after_key_linked, via Proofs/EditorLink.lean) replaces that by C01's EnvOK + reachable-state invariant. The global bound (Props/C05Bound.lean) holds for exact lookup and "
-         "without list-closing API calls over the simple engine's over-full list only: under prefix lookup (fuzzy engine) and through "
-         "cancel_selecting the real buffer grows without bound (recorded as refutations with concrete histories; not repaired, not a "
-         "known-class of this check's oracle, which evaluates the bound after keys that end in Entering).",
+         "(C18.bounded_after_key_linked, via Proofs/EditorLink.lean) replaces that by C01's EnvOK + reachable-state invariant. The global bound (Props/C05Bound.lean) holds on the code repaired by fix b92f99b (FX3/FX4) "
+         "for every layout, lookup strategy and engine and every history of valid operations (len <= B + 1; <= B after every handled "
+         "key that ends in an editing state); between the API call cancel_selecting and the next key Entering may hold limit + 1 "
+         "symbols (recorded refutation of the sharper statement).",
     technique="Lean 4 proof (invariants by induction over operation lists and editor histories, case analysis over the "
               "modelled key-event state machine, list frame equations) over executable models; sampled step-wise "
               "model/implementation correspondence; shadow-list oracle",
